@@ -66,6 +66,18 @@ package keeper
 //@ lemma kindsDisjoint(o: types.OrderID, b: types.BidID, l: types.LeaseID)
 //@   theory strings
 //@   ensures orderKeyOf(o) != bidKeyOf(b) && orderKeyOf(o) != leaseKeyOf(l) && bidKeyOf(b) != leaseKeyOf(l)
+//@ lemma orderBidDisjoint(o: types.OrderID, b: types.BidID)
+//@   theory strings
+//@   ensures orderKeyOf(o) != bidKeyOf(b)
+//@   trigger orderKeyOf(o), bidKeyOf(b)
+//@ lemma orderLeaseDisjoint(o: types.OrderID, l: types.LeaseID)
+//@   theory strings
+//@   ensures orderKeyOf(o) != leaseKeyOf(l)
+//@   trigger orderKeyOf(o), leaseKeyOf(l)
+//@ lemma bidLeaseDisjoint(b: types.BidID, l: types.LeaseID)
+//@   theory strings
+//@   ensures bidKeyOf(b) != leaseKeyOf(l)
+//@   trigger bidKeyOf(b), leaseKeyOf(l)
 
 // ---- C04 / C16: keeper operations = exact store update + exactly the typed event -------------
 //@ spec ordOf(val: map[str]str, id: types.OrderID): types.Order = decode(types.Order, val[orderKeyOf(id)])
@@ -79,21 +91,20 @@ package keeper
 // closing a bid-deposit account touches neither this store nor the event log of typed marketplace events
 //@ spec mktEscrowSKey(): iface
 // Closing a deployment's payment may exhaust the account and so run the marketplace hooks; whatever they do to
-// another module's store, they only close records (never create, delete, re-open or rewrite them) and only add
-// events (assumed here, A-HOOKS; the hooks themselves are verified against it in x/market/hooks).
-//@ spec opaque mktMono(h0: map[str]bool, v0: map[str]str, h1: map[str]bool, v1: map[str]str): bool =
-//@     (forall key: str :: h1[key] == h0[key])
-//@     && (forall o: types.OrderID :: ordOf(v1, o) == ordOf(v0, o) || ordOf(v1, o) == upd(ordOf(v0, o), State, types.OrderClosed))
-//@     && (forall b: types.BidID :: bidOf(v1, b) == bidOf(v0, b) || bidOf(v1, b) == upd(bidOf(v0, b), State, types.BidClosed))
-//@     && (forall l: types.LeaseID :: leaseOf(v1, l) == leaseOf(v0, l) || leaseOf(v1, l) == upd(leaseOf(v0, l), State, types.LeaseClosed)
-//@                                     || leaseOf(v1, l) == upd(leaseOf(v0, l), State, types.LeaseInsufficientFunds))
-//@ lemma mktMonoRefl(h: map[str]bool, v: map[str]str)
-//@   ensures mktMono(h, v, h, v)
-//@   trigger mktMono(h, v, h, v)
-//@ lemma mktMonoTrans(h0: map[str]bool, v0: map[str]str, h1: map[str]bool, v1: map[str]str, h2: map[str]bool, v2: map[str]str)
-//@   requires mktMono(h0, v0, h1, v1) && mktMono(h1, v1, h2, v2)
-//@   ensures mktMono(h0, v0, h2, v2)
-//@   trigger mktMono(h0, v0, h1, v1), mktMono(h1, v1, h2, v2)
+// another module's store, they never remove a record and never re-open a closed one, and they only add events
+// (assumed here, A-HOOKS; the hooks themselves are verified against it in x/market/hooks).
+//@ spec opaque keepsClosed(h0: map[str]bool, v0: map[str]str, h1: map[str]bool, v1: map[str]str): bool =
+//@     (forall key: str :: h0[key] ==> h1[key])
+//@     && (forall o: types.OrderID :: ordOf(v0, o).State == types.OrderClosed ==> ordOf(v1, o).State == types.OrderClosed)
+//@     && (forall b: types.BidID :: bidOf(v0, b).State == types.BidClosed || bidOf(v0, b).State == types.BidLost ==> bidOf(v1, b).State == types.BidClosed || bidOf(v1, b).State == types.BidLost)
+//@     && (forall l: types.LeaseID :: leaseOf(v0, l).State != types.LeaseActive ==> leaseOf(v1, l).State != types.LeaseActive)
+//@ lemma keepsClosedRefl(h: map[str]bool, v: map[str]str)
+//@   ensures keepsClosed(h, v, h, v)
+//@   trigger keepsClosed(h, v, h, v)
+//@ lemma keepsClosedTrans(h0: map[str]bool, v0: map[str]str, h1: map[str]bool, v1: map[str]str, h2: map[str]bool, v2: map[str]str)
+//@   requires keepsClosed(h0, v0, h1, v1) && keepsClosed(h1, v1, h2, v2)
+//@   ensures keepsClosed(h0, v0, h2, v2)
+//@   trigger keepsClosed(h0, v0, h1, v1), keepsClosed(h1, v1, h2, v2)
 //@ ghost PayCloseReq: map[str]map[str]bool
 //@ extern keeper.(EscrowKeeper).AccountClose(recv, ctx, id)
 //@   modifies ghost KVhas, ghost KVval, ghost G, ghost Bank, ghost Mod, ghost It_all, ghost EvN, ghost EvLog
@@ -103,7 +114,7 @@ package keeper
 //@   modifies ghost KVhas, ghost KVval, ghost G, ghost Bank, ghost Mod, ghost It_all, ghost EvN, ghost EvLog, ghost PayCloseReq
 //@   ensures PayCloseReq == old(PayCloseReq)[id.XID := old(PayCloseReq)[id.XID][pid := true]]
 //@   ensures EvN >= old(EvN) && (forall j: int :: 0 <= j && j < old(EvN) ==> EvLog[j] == old(EvLog)[j])
-//@   ensures forall sk: iface :: sk != mktEscrowSKey() ==> mktMono(old(KVhas)[sk], old(KVval)[sk], KVhas[sk], KVval[sk])
+//@   ensures forall sk: iface :: sk != mktEscrowSKey() ==> keepsClosed(old(KVhas)[sk], old(KVval)[sk], KVhas[sk], KVval[sk])
 
 //@ func (Keeper).GetOrder
 //@   ensures result1 <==> KVhas[k.skey][orderKeyOf(id)]
@@ -228,11 +239,12 @@ package keeper
 //@ func (Keeper).OnGroupClosed$1$1
 //@   requires k.skey != mktEscrowSKey()
 //@   modifies ghost KVhas, ghost KVval, ghost G, ghost Bank, ghost Mod, ghost It_all, ghost EvN, ghost EvLog, ghost PayCloseReq
-//@   uses mktMonoTrans, mktMonoRefl, kindsDisjoint
+//@   uses keepsClosedTrans, keepsClosedRefl, orderBidDisjoint, orderLeaseDisjoint, bidLeaseDisjoint
 //@   ensures [walk] !result
-//@   ensures [mono] mktMono(old(KVhas)[k.skey], old(KVval)[k.skey], KVhas[k.skey], KVval[k.skey])
-//@   ensures [bid] bid.State != types.BidLost ==> bidOf(KVval[k.skey], bid.BidID).State == types.BidClosed
-//@   ensures [lease] old(KVhas)[k.skey][leaseKeyOf(asLease(bid.BidID))] ==>
+//@   ensures [keeps] keepsClosed(old(KVhas)[k.skey], old(KVval)[k.skey], KVhas[k.skey], KVval[k.skey])
+//@   ensures [bid] bid.State != types.BidLost && bid.State != types.BidClosed ==>
+//@                bidOf(KVval[k.skey], bid.BidID).State == types.BidClosed || bidOf(KVval[k.skey], bid.BidID).State == types.BidLost
+//@   ensures [lease] old(KVhas)[k.skey][leaseKeyOf(asLease(bid.BidID))] && leaseOf(old(KVval)[k.skey], asLease(bid.BidID)).State == types.LeaseActive ==>
 //@                leaseOf(KVval[k.skey], leaseOf(old(KVval)[k.skey], asLease(bid.BidID)).LeaseID).State != types.LeaseActive
 //@   ensures [payment] old(KVhas)[k.skey][leaseKeyOf(asLease(bid.BidID))] ==>
 //@                PayCloseReq[depXID(upd(upd(zeroDID(), Owner, id.Owner), DSeq, id.DSeq))][leasePID(leaseOf(old(KVval)[k.skey], asLease(bid.BidID)).LeaseID)]
@@ -241,20 +253,21 @@ package keeper
 //@ func (Keeper).OnGroupClosed$1
 //@   requires k.skey != mktEscrowSKey()
 //@   modifies ghost KVhas, ghost KVval, ghost G, ghost Bank, ghost Mod, ghost It_all, ghost EvN, ghost EvLog, ghost PayCloseReq
-//@   uses mktMonoTrans, mktMonoRefl, kindsDisjoint
-//@   call 1 invariant mktMono(atloop(KVhas)[k.skey], atloop(KVval)[k.skey], KVhas[k.skey], KVval[k.skey])
+//@   uses keepsClosedTrans, keepsClosedRefl, orderBidDisjoint, orderLeaseDisjoint, bidLeaseDisjoint
+//@   call 1 invariant keepsClosed(atloop(KVhas)[k.skey], atloop(KVval)[k.skey], KVhas[k.skey], KVval[k.skey])
 //@   call 1 invariant !cbstop && EvN >= atloop(EvN) && (forall j: int :: 0 <= j && j < atloop(EvN) ==> EvLog[j] == atloop(EvLog)[j])
 //@   ensures [walk] !result
-//@   ensures [mono] mktMono(old(KVhas)[k.skey], old(KVval)[k.skey], KVhas[k.skey], KVval[k.skey])
-//@   ensures [order] ordOf(KVval[k.skey], order.OrderID).State == types.OrderClosed
+//@   ensures [keeps] keepsClosed(old(KVhas)[k.skey], old(KVval)[k.skey], KVhas[k.skey], KVval[k.skey])
+//@   call 1 invariant order.State != types.OrderClosed ==> ordOf(KVval[k.skey], order.OrderID).State == types.OrderClosed
+//@   ensures [order] order.State != types.OrderClosed ==> ordOf(KVval[k.skey], order.OrderID).State == types.OrderClosed
 //@   ensures [events] EvN >= old(EvN) && (forall j: int :: 0 <= j && j < old(EvN) ==> EvLog[j] == old(EvLog)[j])
 //@ func (Keeper).OnGroupClosed
 //@   requires k.skey != mktEscrowSKey()
 //@   modifies ghost KVhas, ghost KVval, ghost G, ghost Bank, ghost Mod, ghost It_all, ghost EvN, ghost EvLog, ghost PayCloseReq
-//@   uses mktMonoTrans, mktMonoRefl
-//@   call 1 invariant mktMono(atloop(KVhas)[k.skey], atloop(KVval)[k.skey], KVhas[k.skey], KVval[k.skey])
+//@   uses keepsClosedTrans, keepsClosedRefl
+//@   call 1 invariant keepsClosed(atloop(KVhas)[k.skey], atloop(KVval)[k.skey], KVhas[k.skey], KVval[k.skey])
 //@   call 1 invariant !cbstop && EvN >= atloop(EvN) && (forall j: int :: 0 <= j && j < atloop(EvN) ==> EvLog[j] == atloop(EvLog)[j])
-//@   ensures [mono] mktMono(old(KVhas)[k.skey], old(KVval)[k.skey], KVhas[k.skey], KVval[k.skey])
+//@   ensures [keeps] keepsClosed(old(KVhas)[k.skey], old(KVval)[k.skey], KVhas[k.skey], KVval[k.skey])
 //@   ensures [events] EvN >= old(EvN) && (forall j: int :: 0 <= j && j < old(EvN) ==> EvLog[j] == old(EvLog)[j])
 
 // the number of bids on an order (C08: bid cap)
@@ -267,7 +280,7 @@ package keeper
 //@                 (Keeper).CreateBid#*, (Keeper).CreateLease#*, (Keeper).OnOrderMatched#*, (Keeper).OnBidMatched#*, (Keeper).OnBidLost#*, (Keeper).OnBidClosed#*,
 //@                 (Keeper).OnOrderClosed#*, (Keeper).OnLeaseClosed#*, (Keeper).WithOrdersForGroup#*, (Keeper).WithBidsForOrder#*, (Keeper).BidCountForOrder#*,
 //@                 (Keeper).CreateOrder#*, (Keeper).CreateOrder$1#*, (Keeper).OnGroupClosed#*, (Keeper).OnGroupClosed$1#*, (Keeper).OnGroupClosed$1$1#*,
-//@                 lemma:mktMonoRefl, lemma:mktMonoTrans
+//@                 lemma:keepsClosedRefl, lemma:keepsClosedTrans, lemma:orderBidDisjoint, lemma:orderLeaseDisjoint, lemma:bidLeaseDisjoint
 
 //@ property C06 := orderKey#*, bidKey#*, leaseKey#*, ordersForGroupPrefix#*, bidsForOrderPrefix#*,
 //@     lemma:orderKeyInj, lemma:bidKeyInj, lemma:leaseKeyInj, lemma:ordersForGroupExact, lemma:bidsForOrderExact, lemma:kindsDisjoint
